@@ -89,6 +89,8 @@ type BuiltOp struct {
 	Req    []byte
 	Desc   *ref.Op
 	Inputs map[string]interface{}
+	// keys in force before this operation rotated them (to undo a refused submission)
+	PrevU, PrevR *ref.Key
 }
 
 // NewCDid builds a create request through client.NewCreateRequest.
@@ -168,7 +170,7 @@ func (d *CDid) Update(patches []interface{}, from, until int64) (*BuiltOp, error
 		Consumes: d.CurU.Commitment(d.Code), NextUpdate: info.UpdateCommitment, DeltaStatus: ref.DeltaOK, Patches: patches,
 		From: from, Until: until, MaxDelta: d.MaxDelta}
 	b := &BuiltOp{Req: req, Desc: desc, Inputs: map[string]interface{}{"updateCommitment": info.UpdateCommitment, "revealValue": info.RevealValue,
-		"anchorFrom": from, "anchorUntil": until, "patches": patches, "key": d.CurU.JWK(), "keyType": d.CurU.Type}}
+		"anchorFrom": from, "anchorUntil": until, "patches": patches, "key": d.CurU.JWK(), "keyType": d.CurU.Type}, PrevU: d.CurU, PrevR: d.CurR}
 	d.CurU = nk
 	return b, nil
 }
@@ -205,7 +207,7 @@ func (d *CDid) Recover(patches []interface{}, opaque map[string]interface{}, ori
 		DeltaStatus: ref.DeltaOK, Patches: modelPatches, From: from, Until: until, AnchorOrigin: origin, MaxDelta: d.MaxDelta}
 	b := &BuiltOp{Req: req, Desc: desc, Inputs: map[string]interface{}{"recoveryCommitment": info.RecoveryCommitment,
 		"updateCommitment": info.UpdateCommitment, "revealValue": info.RevealValue, "anchorOrigin": origin, "anchorFrom": from,
-		"anchorUntil": until, "patches": patches, "opaque": opaque, "key": d.CurR.JWK(), "keyType": d.CurR.Type}}
+		"anchorUntil": until, "patches": patches, "opaque": opaque, "key": d.CurR.JWK(), "keyType": d.CurR.Type}, PrevU: d.CurU, PrevR: d.CurR}
 	d.CurR, d.CurU = nr, nu
 	return b, nil
 }
@@ -227,5 +229,5 @@ func (d *CDid) Deactivate(from, until int64) (*BuiltOp, error) {
 		Consumes: d.CurR.Commitment(d.Code), From: from, Until: until, MaxDelta: d.MaxDelta}
 	d.Deact = true
 	return &BuiltOp{Req: req, Desc: desc, Inputs: map[string]interface{}{"revealValue": info.RevealValue, "anchorFrom": from,
-		"anchorUntil": until, "key": d.CurR.JWK(), "keyType": d.CurR.Type}}, nil
+		"anchorUntil": until, "key": d.CurR.JWK(), "keyType": d.CurR.Type}, PrevU: d.CurU, PrevR: d.CurR}, nil
 }
